@@ -282,10 +282,12 @@ def run_probes(ctx, locales, keys, sigs):
     """positive crate: every key with exactly its required arguments must type-check; negative crate: every single omission and
     one unknown argument per key, each in its own function, must each be rejected"""
     res = {"positive_calls": 0, "positive_errors": [], "negative_calls": 0, "negative_accepted": []}
-    root = os.path.join(ctx.work, "probe")
+    from checks import isolate
+    root = isolate.probe_dir(ctx, "probe")
     for flavour in ("pos", "neg"):
         d = os.path.join(root, flavour)
-        write_project(d, locales, keys, name="probe_" + flavour)   # distinct names: both share one target directory
+        # distinct names: both share one target directory (and seed/tier: so do concurrent runs)
+        write_project(d, locales, keys, name=isolate.probe_name(ctx, "probe_" + flavour))
         os.makedirs(os.path.join(d, "src"), exist_ok=True)
         with open(os.path.join(d, "Cargo.toml"), "a") as fh:
             fh.write('\n[workspace]\n\n[dependencies]\nleptos = { version = "0.7.7", features = ["ssr"] }\n'
@@ -357,6 +359,8 @@ def run_probes(ctx, locales, keys, sigs):
 # ---------------------------------------------------------------- run
 
 def run(ctx):
+    from checks import isolate
+    isolate.enter(ctx)
     bindir = core.cargo_build("h_plurals")
     ok, problems = core.coq_audit(ctx, PROPS, THEOREMS)
     exe = os.path.join(bindir, "h_plurals")
@@ -521,6 +525,8 @@ def _value(v):
 
 
 def replay(ctx, path):
+    from checks import isolate
+    isolate.enter(ctx)
     """re-runs the stored key on the implementation (harness) and on the model (coqc) and prints both with the verdict"""
     obj = json.load(open(path))
     fi = obj.get("failing_input") or {}
